@@ -16,7 +16,7 @@ import (
 )
 
 var profile = histeng.Profile{MaxTargets: 7, Edits: []string{"edit-content", "bump-nonce"},
-	ExtSteps: []string{"set-fail", "set-fail", "set-fail", "set-skipout", "set-skipout", "set-slow", "set-selfkill", "set-wrongestablish", "clear-switches", "clear-switches", "clear-marker", "toggle-noestablish"},
+	ExtSteps: []string{"set-fail", "set-fail", "set-softfail", "set-softfail", "set-skipout", "set-skipout", "set-slow", "set-selfkill", "set-wrongestablish", "clear-switches", "clear-switches", "clear-marker", "toggle-noestablish"},
 	Checks:   true, Timeouts: true, FailFast: true, DirOutputs: true, MinSteps: 4, MaxSteps: 12, SubsetBuilds: true}
 
 func run(h histeng.History) (pbt.Result, error) {
